@@ -406,7 +406,41 @@ class WriterExtractor:
         t = self.r.strip_opt(self.r.type_of(e, fi))
         return t[0] == "inst" and t[1] in self.m.classes and self.m.classes[t[1]].is_enum
 
+    def _inert_flag(self, name: str, fi: FuncInfo) -> bool:
+        """`name` is a parameter of this writer with a constant true default that no call anywhere in the package sets to anything else:
+        in a condition it is `True` (a switch added for callers outside the package; what they make of it is theirs)."""
+        if isinstance(fi.node, ast.Lambda):
+            return False
+        a = fi.node.args
+        pos = a.posonlyargs + a.args
+        dfl = {p_.arg: d_ for p_, d_ in zip(pos[len(pos) - len(a.defaults):], a.defaults)}
+        dfl.update({p_.arg: d_ for p_, d_ in zip(a.kwonlyargs, a.kw_defaults) if d_ is not None})
+        d = dfl.get(name)
+        if not (isinstance(d, ast.Constant) and d.value is True):
+            return False
+        if any(isinstance(x, ast.Name) and x.id == name and isinstance(x.ctx, (ast.Store, ast.Del)) for x in ast.walk(fi.node)):
+            return False
+        cache = self.__dict__.setdefault("_kw_set_away", {})
+        if name not in cache:
+            away = False
+            for g in self.m.functions.values():
+                if isinstance(g.node, ast.Lambda):
+                    continue
+                for c_ in ast.walk(g.node):
+                    if isinstance(c_, ast.Call):
+                        for k_ in c_.keywords:
+                            if k_.arg == name and not (isinstance(k_.value, ast.Constant) and k_.value.value is True) and not (isinstance(k_.value, ast.Name) and k_.value.id == name):
+                                away = True
+                            if k_.arg is None:
+                                away = away or False
+            cache[name] = away
+        return not cache[name]
+
     def _cond(self, t: ast.expr, env, fi: FuncInfo) -> Optional[Tuple[str, Src]]:
+        if isinstance(t, ast.BoolOp) and isinstance(t.op, ast.And):
+            rest = [v for v in t.values if not (isinstance(v, ast.Name) and self._inert_flag(v.id, fi))]
+            if len(rest) == 1 and len(rest) < len(t.values):
+                return self._cond(rest[0], env, fi)
         if isinstance(t, ast.Compare) and len(t.ops) == 1 and isinstance(t.ops[0], ast.IsNot) and isinstance(t.comparators[0], ast.Constant) and t.comparators[0].value is None:
             return "notnone", self._src(t.left, env, fi)
         if isinstance(t, (ast.Attribute, ast.Name)):
@@ -1329,6 +1363,10 @@ class ReaderExtractor:
                     return None
                 box = Box({v[0].member}, {num})
                 return [box] if isinstance(op, ast.Eq) else region_not([box])
+            # h.tag == <a whole tag>: class, number (and form) compared at once
+            if lt == hv + ".tag" and isinstance(v, TagConst) and isinstance(op, (ast.Eq, ast.NotEq)):
+                box = Box({v.cls_name}, {v.num})
+                return [box] if isinstance(op, ast.Eq) else region_not([box])
             if isinstance(v, dict) and isinstance(op, (ast.In, ast.NotIn)):
                 v = tuple(v.keys())          # membership in a table: its keys
             vals = list(v) if isinstance(v, (tuple, list, set, frozenset)) else [v]
@@ -1443,8 +1481,15 @@ class ReaderExtractor:
         return out
 
     def _note_alias(self, name: str, v: ast.expr, st) -> bool:
-        if any(isinstance(x, (ast.Call, ast.Lambda, ast.Await, ast.NamedExpr)) for x in ast.walk(v)):
+        if any(isinstance(x, (ast.Lambda, ast.Await, ast.NamedExpr)) for x in ast.walk(v)):
             return False
+        for x in ast.walk(v):
+            if isinstance(x, ast.Call):
+                # a call that folds to a constant (ASN1Tag.universal_tag(...), ASN1Tag(...)) is a constant
+                try:
+                    self.folder.fold(x, st["fi"].module, st.get("consts"), st["cls"])
+                except Unfoldable:
+                    return False
         names = {x.id for x in ast.walk(v) if isinstance(x, ast.Name)}
         roots = set(st["headers"]) | set(st.get("aliases") or {})
         if not names or not (names & roots):
